@@ -299,3 +299,10 @@ define i32 @h(i32 %"") {
 3:
   ret i32 %2
 }
+;;; ATOM func/attrgroup-undefined-use
+declare void @d() #3
+define void @f() #0 {
+  call void @d() #7
+  ret void
+}
+attributes #3 = { nounwind }
